@@ -751,7 +751,10 @@ func (e *enumerator) walkFn(fn *ssa.Function, ev []string, depth int, k func(ev 
 				if cal != nil && cal != fn && depth < 2 && lbl == "" && e.bearsEvents(cal, 0) && len(cal.Params) == len(t.Common().Args) {
 					env := map[*ssa.Parameter]string{}
 					for j, p := range cal.Params {
-						env[p] = e.w.Canon(e.resolve(t.Common().Args[j], st))
+						// arguments are printed with helper results resolved, so a value
+						// computed by one helper and handed to the next keeps its identity
+						e.w.cur = &pathCtxt{st: st, eval: e.eval}
+						env[p] = e.w.canonResolved(e.resolve(t.Common().Args[j], st))
 					}
 					next := i + 1
 					e.w.inlineEnv = append(e.w.inlineEnv, env)
